@@ -177,7 +177,8 @@ func snap0(v reflect.Value, readers bool, depth int) *Node {
 	t := v.Type()
 	switch {
 	case t == timeType:
-		return &Node{T: "time", V: v.Interface().(time.Time).UTC().Format(time.RFC3339Nano)}
+		// in its own zone: a date or a time of day is the one the value shows there
+		return &Node{T: "time", V: v.Interface().(time.Time).Format(time.RFC3339Nano)}
 	case t == urlType:
 		u := v.Interface().(url.URL)
 		return &Node{T: "url", V: u.String()}
@@ -649,8 +650,8 @@ func timeCarried(as, bs string) bool {
 	by, bm, bd := b.Date()
 	dateSame := ay == by && am == bm && ad == bd
 	dateZero := (by == 0 || by == 1) && bm == 1 && bd == 1
-	at := a.Sub(time.Date(ay, am, ad, 0, 0, 0, 0, time.UTC))
-	bt := b.Sub(time.Date(by, bm, bd, 0, 0, 0, 0, time.UTC))
+	at := a.Sub(time.Date(ay, am, ad, 0, 0, 0, 0, a.Location()))
+	bt := b.Sub(time.Date(by, bm, bd, 0, 0, 0, 0, b.Location()))
 	todSame := false
 	for _, g := range []time.Duration{time.Nanosecond, time.Microsecond, time.Millisecond, time.Second, time.Minute, time.Hour} {
 		if at.Truncate(g) == bt {
@@ -773,6 +774,12 @@ func (g *vgen) value(t reflect.Type, depth int, hint string) reflect.Value {
 				years = []int{1700, 1900, 1969, 2200, 2261, 1678}
 			}
 			tm = time.Date(years[g.r.intn(len(years))], time.Month(1+g.r.intn(12)), 1+g.r.intn(28), g.r.intn(24), g.r.intn(60), g.r.intn(60), 0, time.UTC)
+		} else if g.r.intn(3) == 0 {
+			// a value that carries a zone other than UTC: the same local date and time of day in that zone (a date or
+			// a time of day is the one the value shows in its own zone; a date-time is the instant)
+			off := []int{-5 * 3600, 3 * 3600, 9*3600 + 1800, 14 * 3600, -11 * 3600, 5*3600 + 2700}[g.r.intn(6)]
+			y, mo, d := tm.Date()
+			tm = time.Date(y, mo, d, tm.Hour(), tm.Minute(), tm.Second(), 0, time.FixedZone("", off))
 		}
 		v.Set(reflect.ValueOf(tm))
 		return v
